@@ -5,7 +5,7 @@
 //   c01 run [c01|c02|all]     answers one line per operation line
 //
 // Every case starts with `case <id>` followed by
-//   cfg <kind:set|mset|map|mmap> <leaf_slots> <inner_slots> <binsearch:0|1> <order:0 less|1 greater|2 half>
+//   cfg <kind:set|mset|map|mmap> <leaf_slots> <inner_slots> <binsearch:0|1> <order:0 less|1 greater|2 half> [<order of register 1>]
 // Two container registers 0/1 of the configured type exist from `cfg` on.
 //
 // Answer of a query op:     <ret>
@@ -324,17 +324,18 @@ struct Runner : IRunner {
     typedef typename C::reverse_iterator RIt;
     typedef typename C::const_reverse_iterator CRIt;
 
-    int mode;
+    int mode[2];   // key order of each register: travels with the container through copy/assign/swap
     alignas(C) unsigned char store[2][sizeof(C)];
     C* t[2];
     Ref* ref[2];
     std::string curline;
 
-    Runner(int m, bool bin) : mode(m) {
+    Runner(int m0, int m1, bool bin) {
+        mode[0] = m0; mode[1] = m1;
         Tr<L, I>::binsearch_threshold = bin ? 0 : (size_t(1) << 30);
         for (int i = 0; i < 2; ++i) {
-            t[i] = new (store[i]) C(Cmp(mode), CountAlloc<value_type>(i + 1));
-            ref[i] = new Ref(RCmp(mode));
+            t[i] = new (store[i]) C(Cmp(mode[i]), CountAlloc<value_type>(i + 1));
+            ref[i] = new Ref(RCmp(mode[i]));
         }
     }
     ~Runner() override {
@@ -360,8 +361,8 @@ struct Runner : IRunner {
         else return Ent(*it, 0);
     }
     static std::string sent(const Ent& e) { return show_ent(isMap, e); }
-    bool lt(ll a, ll b) const { return lessv(mode, a, b); }
-    bool equiv(ll a, ll b) const { return !lt(a, b) && !lt(b, a); }
+    bool lt(int r, ll a, ll b) const { return lessv(mode[r], a, b); }
+    bool equiv(int r, ll a, ll b) const { return !lt(r, a, b) && !lt(r, b, a); }
 
     std::vector<Ent> contents(int r) const {
         std::vector<Ent> v;
@@ -374,11 +375,11 @@ struct Runner : IRunner {
         return v;
     }
     // sort inside every run of equivalent keys ("up to the relative order of entries with equivalent keys")
-    std::vector<Ent> canon(std::vector<Ent> v) const {
+    std::vector<Ent> canon(int r, std::vector<Ent> v) const {
         size_t i = 0;
         while (i < v.size()) {
             size_t j = i + 1;
-            while (j < v.size() && equiv(v[i].first, v[j].first)) ++j;
+            while (j < v.size() && equiv(r, v[i].first, v[j].first)) ++j;
             std::sort(v.begin() + i, v.begin() + j);
             i = j;
         }
@@ -418,13 +419,13 @@ struct Runner : IRunner {
             std::vector<std::string> problems;
             os << " ; T" << r << ' ';
             F::dump(F::impl(*t[r]), [](const value_type& x) { return sent(ent(x)); },
-                    [](const Tracked& k) { return k.is_alive() ? k.val : -777; }, mode, os, problems);
+                    [](const Tracked& k) { return k.is_alive() ? k.val : -777; }, mode[r], os, problems);
             for (auto& p : problems) v02(p);
             try { t[r]->verify(); }
             catch (std::exception& e) { v02(std::string("verify() fails: ") + e.what()); }
             // contents against the reference
             std::vector<Ent> a = contents(r), b = rcontents(r);
-            if (canon(a) != canon(b)) {
+            if (canon(r, a) != canon(r, b)) {
                 std::ostringstream m;
                 m << "contents of T" << r << " [";
                 for (auto& e : a) m << sent(e) << ' ';
@@ -620,7 +621,7 @@ struct Runner : IRunner {
             if (op == "insr") c.insert(src.begin(), src.end());
             else {
                 t[r]->~C();
-                t[r] = new (store[r]) C(src.begin(), src.end(), Cmp(mode), CountAlloc<value_type>(r + 1));
+                t[r] = new (store[r]) C(src.begin(), src.end(), Cmp(mode[r]), CountAlloc<value_type>(r + 1));
                 R.clear();
             }
             for (auto& e : es) rinsert(r, e.first, e.second);
@@ -641,7 +642,7 @@ struct Runner : IRunner {
                 std::sort(cb.begin(), cb.end()); std::sort(ca.begin(), ca.end());   // multiset difference
                 std::set_difference(cb.begin(), cb.end(), ca.begin(), ca.end(), std::back_inserter(gone));
                 if (rc > 0) {
-                    if (gone.size() == 1 && equiv(gone[0].first, k) && before.size() == after.size() + 1) rerase_exact(r, gone[0]);
+                    if (gone.size() == 1 && equiv(r, gone[0].first, k) && before.size() == after.size() + 1) rerase_exact(r, gone[0]);
                     else { v01("erase_one did not remove exactly one entry equivalent to the key"); }
                 }
                 os << "er1 " << (b ? 1 : 0);
@@ -682,7 +683,7 @@ struct Runner : IRunner {
                 ll lo = rrank(r, R.lower_bound(k)), hi = rrank(r, R.upper_bound(k));
                 if (rank < lo || rank >= hi) v01("find position " + std::to_string(rank) + " outside [" + std::to_string(lo) + "," + std::to_string(hi) + ")");
             } else check_pos(op.c_str(), r, it, rit);
-            if (op == "find" && rit != R.end() && it != c.end() && !equiv(ent(*it).first, k)) v01("find returns an entry with a non-equivalent key");
+            if (op == "find" && rit != R.end() && it != c.end() && !equiv(r, ent(*it).first, k)) v01("find returns an entry with a non-equivalent key");
             if (op == "find" && (it == c.end()) != (cit == cc.end())) v01("find: end() mismatch between overloads");
             ret = op + " " + p;
             return true;
@@ -742,7 +743,7 @@ struct Runner : IRunner {
             bool rev = (mm == 1 || mm == 3 || mm == 4 || mm == 6);
             std::vector<Ent> gc = got;
             if (rev) std::reverse(gc.begin(), gc.end());
-            if (canon(gc) != canon(want)) v01("iteration mode " + std::to_string(m) + " visits a different sequence than the std container");
+            if (canon(r, gc) != canon(r, want)) v01("iteration mode " + std::to_string(m) + " visits a different sequence than the std container");
             os << "iter";
             for (auto& e : got) os << ' ' << sent(e);
             ret = os.str();
@@ -768,7 +769,7 @@ struct Runner : IRunner {
                     Ent got = ent(*rit), got2 = ent(*crit);
                     os << ' ' << sent(got);
                     if (got != got2) v01("reverse_iterator and const_reverse_iterator conversions disagree");
-                    if (!dup && mode != 2 ? got != rent(sit) : !equiv(got.first, rent(sit).first))
+                    if (!dup && mode[r] != 2 ? got != rent(sit) : !equiv(r, got.first, rent(sit).first))
                         v01("reverse_iterator(iterator at rank " + std::to_string(rank) + ") refers to " + sent(got) + ", std to " + sent(rent(sit)));
                     // number of ++ steps to rend() must be rank
                     ll steps = 0; RIt x = rit;
@@ -792,7 +793,7 @@ struct Runner : IRunner {
                     Ent got = ent(*it), got2 = ent(*cit);
                     os << ' ' << sent(got);
                     if (got != got2) v01("iterator and const_iterator conversions disagree");
-                    if (!dup && mode != 2 ? got != rent(sit) : !equiv(got.first, rent(sit).first))
+                    if (!dup && mode[r] != 2 ? got != rent(sit) : !equiv(r, got.first, rent(sit).first))
                         v01("iterator(reverse_iterator after " + std::to_string(rank) + " steps) refers to " + sent(got) + ", std base() to " + sent(rent(sit)));
                     ll steps = 0; It x = it;
                     while (x != c.end() && steps <= static_cast<ll>(R.size()) + 1) { ++x; ++steps; }
@@ -815,7 +816,7 @@ struct Runner : IRunner {
             for (size_t i = 2; i < tk.size(); ++i) { Ent e; if (!parse_ent(tk[i], e)) return false; es.push_back(e); }
             if (!R.empty() || !c.empty()) return false;                       // documented: tree must be empty
             for (size_t i = 1; i < es.size(); ++i) {                          // documented: sorted range
-                if (dup ? lt(es[i].first, es[i - 1].first) : !lt(es[i - 1].first, es[i].first)) return false;
+                if (dup ? lt(r, es[i].first, es[i - 1].first) : !lt(r, es[i - 1].first, es[i].first)) return false;
             }
             mutating = true;
             std::vector<value_type> src;
@@ -834,27 +835,28 @@ struct Runner : IRunner {
                 t[r]->~C();
                 t[r] = new (store[r]) C(*t[s]);
                 *ref[r] = *ref[s];
+                mode[r] = mode[s];
                 ret = "copy";
             } else if (op == "assign") {
                 mutating = true;
                 *t[r] = *t[s];
-                if (r != s) *ref[r] = *ref[s];
+                if (r != s) { *ref[r] = *ref[s]; mode[r] = mode[s]; }
                 ret = "assign";
             } else if (op == "swap") {
                 mutating = true;
                 t[r]->swap(*t[s]);
-                if (r != s) ref[r]->swap(*ref[s]);
+                if (r != s) { ref[r]->swap(*ref[s]); std::swap(mode[r], mode[s]); }
                 ret = "swap";
             } else if (op == "tswap") {
                 mutating = true;
                 F::impl(*t[r]).swap(F::impl(*t[s]));
-                if (r != s) ref[r]->swap(*ref[s]);
+                if (r != s) { ref[r]->swap(*ref[s]); std::swap(mode[r], mode[s]); }
                 ret = "tswap";
             } else {
                 const C& a = *t[r]; const C& b = *t[s];
                 bool g[6] = {a == b, a != b, a < b, a > b, a <= b, a >= b};
                 bool w[6];
-                if (dup && (isMap || mode == 2)) {
+                if (dup && (isMap || mode[r] == 2 || mode[s] == 2)) {
                     // order inside runs of equivalent keys is unspecified: definition applied to the tree's own sequences
                     std::vector<Ent> x = contents(r), y = contents(s);
                     w[0] = x == y; w[1] = !w[0];
